@@ -1,11 +1,11 @@
 \* C12 quick: lease actions with two identifiers and a clock, on graphs with a
 \* chain, a conflict pair and a coinbase.
 CONSTANTS
-  GraphIds = {1,3,4}
+  GraphIds = {1,4}
   MaxTip = 2
   Mat = 2
   LeaseIds = {1,2}
-  MaxNow = 3
+  MaxNow = 2
   MaxHist = 40
   FullHist = FALSE
 INIT Init
